@@ -1,7 +1,7 @@
 (* Property C09 -- "Date/time field codecs are calendar-correct inverses".
    Only theorem statements: each is closed by [exact] of a lemma proved under C09/ and followed
-   by Print Assumptions.  Model: C09/DateTime.v (fix8 as pinned; [_gen true] = time_to_epoch
-   evaluated in 64 bits).  Specification/oracle: C09/Spec_C09.v. *)
+   by Print Assumptions.  Model: C09/DateTime.v (fix8 as pinned; [_orig] = time_to_epoch evaluated
+   in int as before the repair 4d1009d).  Specification/oracle: C09/Spec_C09.v. *)
 From Coq Require Import ZArith List Bool.
 From F8 Require Import C09.DateTime C09.Spec_C09 C09.CalendarSweeps C09.DigitProofs C09.PrintProofs
   C09.ParseProofs C09.RoundtripProofs C09.LogProofs.
@@ -17,12 +17,10 @@ Proof. exact civil_of_days_ok. Qed.
 Print Assumptions c09_calendar.
 
 (* time_to_epoch is the inverse of the calendar: for every valid date of 1970..2099 (complete
-   sweep) and every time of day it returns the second count of that civil time -- in 64 bits
-   always, as pinned (int arithmetic) when the count fits an int. *)
-Theorem c09_epoch_inverse : forall wide y m d h mi s,
+   sweep) and every time of day it returns the second count of that civil time. *)
+Theorem c09_epoch_inverse : forall y m d h mi s,
   1970 <= y <= 2099 -> valid_date y m d = true -> 0 <= h < 24 -> 0 <= mi < 60 -> 0 <= s < 60 ->
-  (wide = true \/ days_from_civil y m d * 86400 + h * 3600 + mi * 60 + s <= INT_MAX) ->
-  time_to_epoch_gen wide (mk_tm y m d h mi s) 0 false
+  time_to_epoch (mk_tm y m d h mi s) 0 false
   = Some (days_from_civil y m d * 86400 + h * 3600 + mi * 60 + s, false).
 Proof. exact epoch_inverse_lemma. Qed.
 Print Assumptions c09_epoch_inverse.
@@ -33,41 +31,36 @@ Theorem c09_digits : forall w n, 0 <= n < 10 ^ Z.of_nat w ->
 Proof. exact digits_roundtrip. Qed.
 Print Assumptions c09_digits.
 
-(* Pinned code, whole range 1970..2100, every nanosecond tick count: the six printed texts
-   (UTCTimestamp, UTCTimeOnly, UTCDateOnly, LocalMktDate, MonthYear 6 and 8) have the canonical
-   shape and denote the instant's calendar components. *)
-Theorem c09_texts : forall t, in_range t = true -> c09_texts_ok t (observe (roundtrip t)) = true.
-Proof. exact texts_ok. Qed.
-Print Assumptions c09_texts.
-
-(* Pinned code: for every tick count before 2038-01-19T03:14:08 the texts are right AND the
-   string constructors give back the component (instant truncated to ms, time of day, day, first
-   of month); no undefined int operation is executed. *)
-Theorem c09_roundtrip_partial : forall t, 0 <= t < 2147483648 * NS_SEC ->
+(* The property, codec part: for EVERY nanosecond tick count of 1970-01-01 .. 2100-01-01 (so in
+   particular every millisecond instant) the six printed texts (UTCTimestamp, UTCTimeOnly,
+   UTCDateOnly, LocalMktDate, MonthYear 6 and 8) have the canonical shape and denote the instant's
+   calendar components, and the string constructors give back exactly that component (instant
+   truncated to ms, time of day, day, first of the month); no undefined operation is executed. *)
+Theorem c09_roundtrip : forall t, in_range t = true ->
   c09_ok t (observe (roundtrip t)) = true /\ forallb (fun p => ub_free (snd p)) (roundtrip t) = true.
-Proof. exact roundtrip_partial_lemma. Qed.
-Print Assumptions c09_roundtrip_partial.
-
-(* ... and from there on it does not: at 2038-01-19T03:14:08 the int expression of
-   time_to_epoch overflows (undefined behaviour; wraps to a negative second count). *)
-Theorem c09_y2038_refuted : exists t, in_range t = true /\ c09_ok t (observe (roundtrip t)) = false /\
-  forallb (fun p => ub_free (snd p)) (roundtrip t) = false.
-Proof. exact y2038_refuted_lemma. Qed.
-Print Assumptions c09_y2038_refuted.
-
-(* With time_to_epoch's expression evaluated in time_t (the proposed repair) the property holds
-   on its whole range. *)
-Theorem c09_roundtrip_wide : forall t, in_range t = true -> c09_ok t (observe (roundtrip_gen true t)) = true.
-Proof. exact roundtrip_wide_lemma. Qed.
-Print Assumptions c09_roundtrip_wide.
+Proof. exact roundtrip_lemma. Qed.
+Print Assumptions c09_roundtrip.
 
 (* The string constructors invert EVERY well-formed text of the range, not only the ones print()
    produces (17 and 21 character timestamps, 8 and 12 character times, dates, both MonthYear forms). *)
-Theorem c09_parse_partial : forall wide k s v, denote k s = Some v -> in_range v = true ->
-  (wide = true \/ v < 2147483648 * NS_SEC) ->
-  field_parse_gen wide (mkind k) s = Ticks v false.
-Proof. exact parse_follows_denote. Qed.
-Print Assumptions c09_parse_partial.
+Theorem c09_parse : forall k s v, denote k s = Some v -> in_range v = true ->
+  field_parse (mkind k) s = Ticks v false.
+Proof. exact parse_lemma. Qed.
+Print Assumptions c09_parse.
+
+(* The code before the repair 4d1009d (time_to_epoch evaluated in int, [roundtrip_orig]) violated
+   the property from 2038-01-19T03:14:08 on: signed overflow, the timestamp parses to a negative
+   tick count ... *)
+Theorem c09_y2038_orig_refuted : exists t, in_range t = true /\ c09_ok t (observe (roundtrip_orig t)) = false /\
+  forallb (fun p => ub_free (snd p)) (roundtrip_orig t) = false.
+Proof. exact y2038_orig_refuted_lemma. Qed.
+Print Assumptions c09_y2038_orig_refuted.
+
+(* ... and was right exactly up to there. *)
+Theorem c09_roundtrip_orig_partial : forall t, 0 <= t < 2147483648 * NS_SEC ->
+  c09_ok t (observe (roundtrip_orig t)) = true /\ forallb (fun p => ub_free (snd p)) (roundtrip_orig t) = true.
+Proof. exact roundtrip_orig_partial_lemma. Qed.
+Print Assumptions c09_roundtrip_orig_partial.
 
 (* Log timestamps (GetTimeAsStringMS, gm form; with TZ=UTC also the localtime form): the text shows
    the calendar fields of the instant with seconds in 00..59 and is less than one unit of the last
@@ -88,11 +81,11 @@ Theorem c09_log_seconds_refuted : exists secs nsecs d, log_in_range secs nsecs d
 Proof. exact log_seconds_refuted_lemma. Qed.
 Print Assumptions c09_log_seconds_refuted.
 
-(* Non-vacuity: 2000-02-29T23:59:59.999 meets the hypotheses of c09_roundtrip_partial and yields the
+(* Non-vacuity: 2000-02-29T23:59:59.999 meets the hypothesis of c09_roundtrip and yields the
    expected texts "20000229-23:59:59.999", "23:59:59.999", "20000229", "20000229", "200002",
    "20000229" with their components; "2000-02-29 23:59:59.500000" meets those of c09_log_partial. *)
 Theorem c09_nonvacuous :
-  0 <= 951868799999000000 < 2147483648 * NS_SEC /\
+  in_range 951868799999000000 = true /\
   observe (roundtrip 951868799999000000) =
     [([50; 48; 48; 48; 48; 50; 50; 57; 45; 50; 51; 58; 53; 57; 58; 53; 57; 46; 57; 57; 57], Some 951868799999000000);
      ([50; 51; 58; 53; 57; 58; 53; 57; 46; 57; 57; 57], Some 86399999000000);
